@@ -184,7 +184,7 @@ namespace Stages
 variable {fs : Files} {lines : List Str} {a : Assembly}
 
 theorem ss0_notAddr (st : Stages fs lines a) : ∀ s ∈ st.ss0, s.operand.value.isAddress = false :=
-  expand_forall (P := fun s => s.operand.value.isAddress = false) (fun _ _ h => parseLine_notAddr h) fs 64 []
+  expand_forall (P := fun s => s.operand.value.isAddress = false) (fun _ _ h => parseLine_notAddr h) fs (includeFuel fs) []
     st.parsed st.ss0
     (parseLines_forall (P := fun s => s.operand.value.isAddress = false) (fun _ _ h => parseLine_notAddr h) lines
       st.parsed st.hparse) st.hexpand
